@@ -234,7 +234,7 @@ def ods_encodable(value, features):
 
 
 # ---------------------------------------------------------------------------------- xlsx
-def write_xlsx(path, sheets, typed=False, date_1904=None):
+def write_xlsx(path, sheets, typed=False, date_1904=None, hidden=()):
     """sheets: list of tables; cells are str (written with write_string) unless typed=True, then
     cells are ('kind', value) tuples handled by the caller-provided kinds below."""
     import xlsxwriter
@@ -250,8 +250,10 @@ def write_xlsx(path, sheets, typed=False, date_1904=None):
     book.set_properties({"created": __import__("datetime").datetime(2020, 1, 1)})
     date_fmt = book.add_format({"num_format": "yyyy-mm-dd hh:mm:ss"})
     time_fmt = book.add_format({"num_format": "hh:mm:ss"})
+    made = []
     for table in sheets:
         sheet = book.add_worksheet()
+        made.append(sheet)
         for y, row in enumerate(table):
             for x, cell in enumerate(row):
                 if not typed or isinstance(cell, str):
@@ -272,6 +274,13 @@ def write_xlsx(path, sheets, typed=False, date_1904=None):
                             sheet.write_string(y, x, value)
                     else:
                         raise ValueError(kind)
+    if hidden:
+        # sheets the application does not show as tabs (state="hidden"): they keep their place in the workbook
+        visible = [i for i in range(len(made)) if i not in hidden]
+        made[visible[0]].activate()
+        made[visible[0]].set_first_sheet()
+        for i in hidden:
+            made[i].hide()
     book.close()
 
 
